@@ -19,6 +19,7 @@ import (
 func TestC12(t *testing.T) {
 	r := vf.Begin(t, "C12")
 	defer r.End()
+	defer perturbReport(r)
 	r.Describe("PRNG scenarios on one client connection (synctest bubble), 1-16 concurrent callers: (a) a recorded valid server byte stream (responses with continuations, padding, trailers, interleaving) cut at a byte offset and ended by EOF or RST; (b) single-frame mutations of it (type, flags, length +/-, stream id -> 0/even/unknown, payload flips, duplicate, drop, reorder); "+
 		"(c) scripted adversaries: RST_STREAM with every code, GOAWAY variants, oversized frames, garbage, HEADERS on idle streams, PUSH_PROMISE, WINDOW_UPDATE 0/overflow, SETTINGS storms and invalid SETTINGS, CONTINUATION floods, silence (PINGs never answered); (d) transport write failures on the client side after N bytes / on the k-th write; (e) Close racing Write. "+
 		"Monitors per request: exactly one kind of outcome (never nil and an error both), nil only together with exactly the response the server delivered completely, every request resolved once the connection is dead or closed and 30 virtual seconds have passed; no runtime panic surfacing as LastErr, the worker process survives, and no goroutine of the connection is left. "+
@@ -36,7 +37,7 @@ func TestC12(t *testing.T) {
 }
 
 func c12Scenario(r *vf.Run, t *testing.T, id string, rng *rand.Rand) {
-	family := []string{"cut", "cut", "mutate", "mutate", "adversary", "adversary", "writefault", "close-race"}[rng.Intn(8)]
+	family := []string{"cut", "cut", "mutate", "mutate", "adversary", "adversary", "writefault", "close-race", "early"}[rng.Intn(9)]
 	k := 1 + rng.Intn(6)
 	if rng.Intn(4) == 0 {
 		k = 1 + rng.Intn(16)
@@ -45,7 +46,17 @@ func c12Scenario(r *vf.Run, t *testing.T, id string, rng *rand.Rand) {
 	reqs := make([]*cliReq, k)
 	for i := range reqs {
 		reqs[i] = genCliReq(rng, id, i, 3000, 20000)
+		if family == "early" && rng.Intn(4) != 0 {
+			// an upload that will be stuck behind the server's flow-control window when the answer comes
+			q := reqs[i]
+			q.Method = "POST"
+			q.Body = make([]byte, 1500+rng.Intn(40000))
+			rng.Read(q.Body)
+			q.BodyMode = 1 + rng.Intn(3)
+			q.ReadChunk = []int{0, 100, 5000, 16384}[rng.Intn(4)]
+		}
 	}
+	earlyWindow := uint32([]int{0, 0, 1, 100, 1000}[rng.Intn(5)])
 	class := ""
 	replay := map[string]any{"family": family, "callers": k, "ending": ending}
 	failed := false
@@ -57,6 +68,9 @@ func c12Scenario(r *vf.Run, t *testing.T, id string, rng *rand.Rand) {
 	}
 	res := rt.RunBubble(t, id, 25*time.Second, func() {
 		opts := rt.ClientOpts{PeerSettings: []wire.Setting{{ID: 4, Val: 1 << 20}}}
+		if family == "early" {
+			opts.PeerSettings = []wire.Setting{{ID: 4, Val: earlyWindow}}
+		}
 		silence := false
 		if family == "adversary" && rng.Intn(8) == 0 {
 			silence = true
@@ -304,6 +318,32 @@ func c12Scenario(r *vf.Run, t *testing.T, id string, rng *rand.Rand) {
 					delivered[tag] = false
 				}
 			}
+		case "early":
+			// RFC 7540 8.1: a server may answer, completely, before the request body has been sent (and may
+			// then reset the stream with NO_ERROR); here the rest of the body cannot even be sent, the window is shut.
+			kind := rng.Intn(4)
+			class = fmt.Sprintf("e%d/w%d", kind, earlyWindow)
+			replay["early_kind"], replay["server_window"] = kind, earlyWindow
+			var rsts, grants []byte
+			for _, s := range streamOf {
+				rsts = append(rsts, rt.RstStream(s, uint32([]int{0, 0, 5, 7, 8}[rng.Intn(5)]))...)
+				grants = append(grants, rt.WindowUpdate(s, 1<<20)...)
+			}
+			switch kind {
+			case 0: // complete responses, nothing else
+				sendAll(frames, len(frames), func(int) bool { return true })
+			case 1: // complete responses, then RST_STREAM
+				sendAll(frames, len(frames), func(int) bool { return true })
+				rt.Wait()
+				e.P.Write(rsts)
+			case 2: // RST_STREAM only
+				e.P.Write(rsts)
+			case 3: // complete responses, then the window opens after all
+				sendAll(frames, len(frames), func(int) bool { return true })
+				rt.Wait()
+				e.P.Write(grants)
+			}
+			r.Inc("early_answers_to_blocked_uploads", int64(len(streamOf)))
 		case "writefault", "close-race":
 			sendAll(frames, len(frames), func(int) bool { return true })
 			if family == "close-race" || true {
@@ -353,6 +393,9 @@ func c12Scenario(r *vf.Run, t *testing.T, id string, rng *rand.Rand) {
 				if family == "cut" && !delivered[q.Tag] {
 					fail("success-without-complete-response", fmt.Sprintf("family cut: request %s reported success but the server stream was cut before its response was complete", q.Tag))
 				}
+			}
+			if family == "early" && delivered[q.Tag] && err != nil {
+				r.Inc("early_complete_response_reported_as_error", 1)
 			}
 			if family == "cut" && delivered[q.Tag] && err != nil && ending != 1 {
 				r.Inc("complete_response_reported_as_error", 1)
